@@ -24,6 +24,7 @@ func init() {
 			}},
 			{"C11.store-overwrites", "the local cache store always writes and renames a fresh file (an invalid cached chunk is replaced by the refill; shared with C08)", 3, c08Typestate},
 			{"C11.shapes", "the CLI wraps stores as Cache(Router(FailoverGroup...), RepairableCache?)", 3, c11Shapes},
+			{"C11.dedup-leader", "the de-duplication layer of the store chain forwards each request once and forgets it afterwards (same queue for loadOrStore and delete; shared with C12)", 3, c12Leader},
 			{"C11.missing-unwrapped", "a miss is reported as the concrete ChunkMissing/NoSuchObject by every function that builds one", 8, func(c *Ctx) { c.missingUnwrapped() }},
 			{"C11.pool-returned", "pooled sessions (ssh, sftp) are given back on every path, also after a miss", 4, func(c *Ctx) { c.poolPairing("RemoteSSH", "pool"); c.poolPairing("SFTPStore", "pool") }},
 			{"C11.minio-error-values", "minio errors are recognised by their value type (a miss in S3 stays a miss)", 1, func(c *Ctx) { c.valueErrorTypes() }},
